@@ -689,6 +689,8 @@ def run(chk):
     chk.guard(rule_r6, chk, m)
     chk.guard(rule_r7, chk, m)
     chk.guard(rule_r8, chk, m)
+    from .. import args as _args
+    chk.guard(_args.apply, chk, "C09-R90", {'dates'}, 1)
     chk.assumptions = [
         "datetime.date / calendar.monthrange are correct (the checker's own calendar module is the oracle for month lengths)",
         "year/segment forms are affine in year, so the sampled years (negative, 0, 1, 1999..9999) stand for all years",
